@@ -501,3 +501,33 @@ func c18names(c *Ctx, pkg string) {
 	}
 	r.Check(len(mapParams) == 4 && len(used) > 0 && nStores > 0 && len(missing) == 0, "TABLE", fkey(nt)+"/one-resource-list", c.Pos(nt.Pos()), "the maps defining the pool's resource list are completed over the names of all four threshold maps", sprintf("the pool's resource list misses the resources configured only in %v: their thresholds are never computed and a node above them counts as underused", missing))
 }
+
+// c18mark: a mark is judged on the state after the expiry roll-over.
+func c18mark(c *Ctx) {
+	r := c.R
+	r.Rule("FLOW(state after roll-over): in BasicDetector.Mark the state handed to onNormality / onAbnormalities is the result of currentState(now) (the state after an expired anomaly has been rolled over), not a reading of the field taken before")
+	fn := c.Fn(anomalyPkg, "BasicDetector", "Mark")
+	if fn == nil {
+		return
+	}
+	n, ok := 0, true
+	for _, cl := range an.Calls(fn, false) {
+		sn := an.ShortCallee(cl.Common())
+		if sn != "onNormality" && sn != "onAbnormalities" {
+			continue
+		}
+		n++
+		a := an.Args(cl.Common())
+		srcs := cellSources(a[1])
+		if len(srcs) == 0 {
+			ok = false
+		}
+		for _, s := range srcs {
+			call, _ := an.ResultOfCall(s)
+			if call == nil || an.ShortCallee(&call.Call) != "currentState" {
+				ok = false
+			}
+		}
+	}
+	r.Check(ok && n >= 2, "FLOW", fkey(fn)+"/state-after-rollover", c.Pos(fn.Pos()), "the mark is dispatched on currentState(now)", "a mark is dispatched on a state read before the expiry roll-over: an anomaly that has timed out is re-entered by the first abnormal mark, without the required consecutive rounds")
+}
